@@ -11,11 +11,15 @@
    e format) and the success of ParseFloat on the printed text (float_ok, Reader.v); everything else about
    floats (sign, point, the .0 rule, e+NN, +Inf -Inf NaN, how it lexes and parses) is modelled and proved.
 
-   NOT proved: the evaluated route for hashes (the reader gives the list (hash k: v ...); that its
-   evaluation rebuilds the hash needs the evaluator and MakeHash, outside this model: correspondence only). *)
+   Hashes: [dat] contains hashes with symbol keys (k:) and string keys (printed by strconv.Quote), so
+   read_print_data also says that a printed hash is read, through the colon states of the lexer and the
+   look-ahead after the opening brace, as the list (hash k: v ...) ([to_sexp]); eval_read_print_jsonlike says that
+   evaluating that list ([eval_json_like]: literals, array literals, the hash builder on literal arguments) gives
+   the value back.  Excluded: records (Type k:v), keys that are neither symbols nor strings, a symbol key whose
+   first value is the symbol for (parsed as an infix block), and the known findings (strings / keys needing Go-only escapes). *)
 From Coq Require Import ZArith List Bool.
 From ZV Require Import Model.Regex Generated.LexTables Model.Lexer Model.Reader Model.Printer
-  Proofs.PrinterLex Proofs.RegexSem Proofs.Classify Proofs.PrinterProofs.
+  Proofs.PrinterLex Proofs.RegexSem Proofs.Classify Proofs.PrinterProofs Proofs.EvalJson.
 Import ListNotations.
 Open Scope Z_scope.
 
@@ -237,6 +241,34 @@ Theorem symbol_split_refuted :
 Proof. exact PrinterProofs.symbol_split_refuted. Qed.
 Print Assumptions symbol_split_refuted.
 
+(* ---- hashes: the reader part is inside read_print_data; the pieces, and the evaluated route ---- *)
+Theorem read_print_hash_key_sym : forall n x tx, symkey_ok n -> starts_ok x -> lexes_to x tx ->
+  lexes_to (n ++ 58 :: x) (mkTok TSymbolColon n :: tx).
+Proof. exact symkey_lexes. Qed.
+Print Assumptions read_print_hash_key_sym.
+
+Theorem read_print_hash_key_str : forall is_print its x tx, Forall (item_ok is_print) its -> starts_ok x -> lexes_to x tx ->
+  lexes_to (quote_str is_print its ++ 58 :: x) (mkTok TString (map item_rune its) :: mkTok TColonOperator [58] :: tx).
+Proof. exact strkey_lexes. Qed.
+Print Assumptions read_print_hash_key_str.
+
+(* the printed hash parses to the list (hash k: v ...): E for VHash, any nesting *)
+Theorem read_print_hash_form : forall is_print kvs, Forall (fun kv => E is_print (snd kv)) kvs -> E is_print (VHash kvs).
+Proof. exact E_hash. Qed.
+Print Assumptions read_print_hash_form.
+
+Theorem eval_to_sexp : forall pf v, jl pf v -> eval_json_like pf (to_sexp v) = Some (jv_of v).
+Proof. exact eval_to_sexp_all. Qed.
+Print Assumptions eval_to_sexp.
+
+Theorem eval_read_print_jsonlike : forall pf is_print v fuel, dat is_print false v -> jl pf v -> (vsize v + 3 <= fuel)%nat ->
+  match observe (parse_whole true false fuel (print is_print v)) with
+  | (StDone, [e]) => eval_json_like pf e
+  | _ => None
+  end = Some (jv_of v).
+Proof. exact EvalJson.eval_read_print_jsonlike. Qed.
+Print Assumptions eval_read_print_jsonlike.
+
 (* ---- non-vacuity ---- *)
 Definition ascii_print (c : Z) : bool := (32 <=? c) && (c <=? 126).
 
@@ -267,12 +299,23 @@ Example fsample_reads_back :
   observe (parse_whole true false 40 (print ascii_print fsample)) = (StDone, [to_sexp fsample]).
 Proof. vm_compute. reflexivity. Qed.
 
-(* a hash read as data is the list (hash a: 1 "b" : 2) — the evaluated route is outside the model *)
+(* a hash read as data is the list of the hash builder applied to its keys and values *)
 Example hash_reads_as_list :
   observe (parse_whole true false 40 (print ascii_print (VHash [(VSym [97], VInt 1); (VStr [Rune 98], VInt 2)]))) =
   (StDone, [SPair (sym str_hash) (SPair (SSym true false [97]) (SPair (SInt 1)
             (SPair (SStr false [98]) (SPair (sym [58]) (SPair (SInt 2) SNull)))))]).
 Proof. vm_compute. reflexivity. Qed.
+
+Example hash_evaluates_back :
+  match observe (parse_whole true false 60 (print ascii_print
+          (VHash [(VSym [97], VArr [VInt 1; VNil]); (VStr [Rune 98; Rune 34], VHash [(VSym [99], VBool true)])]))) with
+  | (StDone, [e]) => eval_json_like (fun _ => None) e
+  | _ => None
+  end = Some (JHash [(JKSym [97], JArr [JInt 1; JNil]); (JKStr [98; 34], JHash [(JKSym [99], JBool true)])]).
+Proof. vm_compute. reflexivity. Qed.
+
+Example symkey_ok_a : symkey_ok [97; 98].
+Proof. split; [discriminate|]. split; [repeat constructor|]. split; vm_compute; reflexivity. Qed.
 
 Example sym_ok_foo : sym_ok [102; 111; 111; 36].
 Proof.
